@@ -37,6 +37,7 @@ type respCase struct {
 	Op       string            `json:"operation,omitempty"`
 	Response string            `json:"response,omitempty"`
 	Mutation string            `json:"mutation,omitempty"`
+	Asym     bool              `json:"asymmetric_binding,omitempty"` // some binding has only one of marshaler/unmarshaler
 }
 
 var dataTypeRe = regexp.MustCompile(`(?m)^func ([A-Za-z]\w*)\(\n(?:\t.*\n)*?\) \(data_ \*(\w+),`)
@@ -115,7 +116,10 @@ func runResp(c *Ctx, prop string) {
 				}
 			}
 			if asym {
-				c.Res.Count("excluded:asymmetric-binding")
+				// values of such leaves are not comparable after a round trip; the structural clauses (every key once,
+				// no key lost, __typename present for abstract values) still are
+				c.Res.Count("asymmetric-binding:structural-clauses-only")
+				cases = append(cases, respCase{Seed: seed, Schema: pr.Schema, Ops: pr.Ops, Cfg: pr.Cfg, Asym: true})
 				continue
 			}
 		}
